@@ -302,7 +302,7 @@ def rule_d(ctx):
 
 
 def rule_e(ctx):
-    poison_rules(ctx, "C14.e", floor=4)
+    poison_rules(ctx, "C14.e", floor=3)
 
 
 def rule_f(ctx):
